@@ -1034,7 +1034,7 @@ HCPread(accrec_t *access_rec, int32 length, void *data)
     /* adjust length if it falls off the end of the element */
     if (length == 0)
         length = info->length - access_rec->posn;
-    else if (length < 0 || access_rec->posn + length > info->length)
+    else if (length < 0 || length > info->length - access_rec->posn) /* (posn + length may not be representable) */
         HGOTO_ERROR(DFE_RANGE, FAIL);
 
     if ((*(info->minfo.model_funcs.read))(access_rec, length, data) == FAIL)
